@@ -478,7 +478,7 @@ def st_source():
         head = draw(st.integers(0, len(HEADS) - 1))
         idx = draw(st.lists(st.integers(0, len(STMTS) - 1), min_size=1, max_size=4))
         return {'kind': 'generated', 'head': head, 'stmts': idx, 'register': draw(st.sampled_from([True, True, True, False])),
-                'future': draw(st.booleans())}
+                'future': draw(st.booleans()), 'stale': draw(st.sampled_from([0, 0, 0, 0, 1, 2, 3]))}
     return build()
 
 
@@ -508,6 +508,15 @@ def check_generated(case, stats):
         except Exception as e:
             stats.cls('generated/definition-raises')
             return
+        stale = case.get('stale', 0)
+        if stale and case.get('register', True):
+            # the file changed after it was imported: what is found at the function's lines is something else now
+            import linecache
+            fn = g['__verif_file__']
+            old = linecache.cache[fn][2]
+            new = {1: ['# changed on disk\n'] * len(old), 2: ["x = ('''\n"] * len(old), 3: ['    pass\n'] + old[:-1]}[stale]
+            linecache.cache[fn] = (sum(map(len, new)), None, new, fn)
+            stats.cls('generated/source-changed-after-import')
         stats.cls('generated/%s' % ('with-source' if case.get('register', True) else 'no-source'))
         check_object('generated:' + target, obj, stats, dict(case, source=src), dotted=False, src=src)
     finally:
